@@ -201,6 +201,7 @@ def main():
     for name, prop, commit, note in [
         ("revert_fix_c08_empty_merge", "C08", "3d2d4eb", "reverts the repair of the empty array/Vec merge (panics in Indexer::iter)"),
         ("revert_fix_c15_take0", "C15", "ce43740", "reverts the repair of take(0) (processes the first item)"),
+        ("revert_fix_c03_race_ok_guard", "C03", "1f62ff7", "reverts the completion guard of array / Vec race_ok (children polled again when the finished future is polled again)"),
     ]:
         d = sh(["git", "-C", "/repo", "show", "-R", "--format=", commit, "--", "src"]).stdout
         open(os.path.join(OUT, name + ".diff"), "w").write(d)
